@@ -559,7 +559,7 @@ EXPLANATION = (
     "(intrinsic object -> out -> ir -> vhdl) is checked for role-preserving argument positions; backend tokens "
     "and operand order are compared with the documented VHDL operators; exhaustiveness of backend entries; cast "
     "placement for concat/shift; any()/all() constant folding; Unsigned/Signed and forward/reflected sibling "
-    "agreement; documented result widths per isinstance branch. NOT decided: that numeric_std computes those "
+    "agreement; documented result widths per isinstance branch; every operator / cohdl.op protocol method the .pyi stubs document is defined (C02.stub). NOT decided: that numeric_std computes those "
     "functions, value semantics of arbitrary expression trees, if-expression/select_with merging."
 )
 ASSUMPTIONS = [
